@@ -284,6 +284,11 @@ InnerRegistered == act[1] = "reg" =>
                         LET c == InnerChain(act[2], act[3])[k] IN
                         /\ \A q \in AncSelf(c[2]) : Avail(q, c[1])
                         /\ Avail(act[3], c[1]) /\ Avail(c[2], act[2])
+                        \* a location wrapped more than once: the inner copies are copies of each other as well
+                        /\ \A j \in 1..Len(InnerChain(act[2], act[3])) :
+                              LET d == InnerChain(act[2], act[3])[j] IN Avail(c[2], d[1]) /\ Avail(d[2], c[1])
+\* relation closure, stated on the relations declared so far: whatever is a certain copy of p is reported from p
+RelationClosed == \A p \in Paths, l \in Locs : sup[p][l] # {} => Avail(p, l)
 InvalidateCovers == act[1] = "inv" => \A p \in Under(act[3]) : Exp(p, act[2]) = "no" => ~Avail(p, act[2])
 InvalidateTerminates == err = "none"
 SourceValid == \A p \in Paths : \A i \in PrimaryAt(p) : dl[i].type = "PRIMARY"     \* by construction of PrimaryAt
